@@ -64,6 +64,9 @@ PARSER_TREES = {
     # unterminated surrogate escapes (no closing quote: errors at end of input)
     'surropen': dict(alpha=toks('\\uD800', '\\uDC00', '\\u00e9', '\\', 'u', 'D', '8', '0', '"'),
                      prefix='"', suffix='', opts=ALLOPTS, maxlen={'quick': 4, 'thorough': 5}),
+    # surrogate escapes after the string has outgrown the 16-byte inline buffer (a spilled buffer may take other code paths)
+    'surrpad': dict(alpha=toks('\\uD800', '\\uDC00', '\\u0041', 'x', '\U00010000', '\\n'),
+                    prefix='"abcdefghijklmnopq', suffix='"', opts=ALLOPTS, maxlen={'quick': 4, 'thorough': 5}),
     # tokens with whitespace and multi-byte characters: code-map spans
     'tokens': dict(alpha=toks('[', ']', '{', '}', ',', ':', ' ', '"\u00e9"', '"\\u00e9\U0001F600"', '-1.5e3', 'true', '\r\n'),
                    prefix='', suffix='', opts=STRICT, maxlen={'quick': 6, 'thorough': 7}),
